@@ -1,11 +1,23 @@
 (* LowLevel2IProofs.v -- C10-A2, second layer: the array-level constructor of relaxation::ilu0
-   (LowLevel2I.v) agrees with the list model Ilu.ilu0: on a well-formed square matrix with a
-   diagonal entry in every row it stays inside every array, reads no unwritten cell (L/U
-   ptr/col/val and D are unwritten at the start), never dereferences a NULL work pointer, throws
-   exactly when the list model does and leaves exactly the flat arrays of the list model's L, U
-   and the vector D.  Rows need NOT be sorted and may contain duplicate columns (the work pointer
-   of a column is the LAST entry with this column, as in Ilu.v).
-   No algebraic law is used (any Scalar record). *)
+   (LowLevel2I.v, amgcl/relaxation/ilu0.hpp:92-205) agrees with the list model Ilu.ilu0.
+   On a well-formed matrix with ncols <= nrows and a diagonal entry in every row it stays inside
+   every array, reads no unwritten cell (L/U ptr/col/val and D are unwritten at the start), never
+   dereferences a NULL work pointer, throws exactly when the list model does and leaves exactly the
+   flat arrays of the list model's L, U and the vector D (theorems ll_ilu0_gen / ll_ilu0_ok at the end).
+   Rows need NOT be sorted and may contain duplicate columns: the work pointer of a column is the
+   LAST entry with this column, as in Ilu.v (get_last / upd_last).  has_diag cannot be dropped: for
+   a row without an entry c >= i the cell D[i] stays unwritten (the junk input of the list model).
+   No algebraic law is used (any Scalar record).
+
+   Structure of the proof:
+     rowst            the memory state inside row i as a function of the list-level work row (wrow)
+     wp_access        *work[c] / *work[c] = x  against  get_last / wupd
+     lincomb_loop, elim_ok     second loop of the row against Ilu.ilu0_elim (incl. both throws)
+     scatter_ok       first loop against Ilu.ilu0_scatter; capacity: one tail cell per entry
+     compact_loop     the in-place removal of zeros against Ilu.drop_zeros
+     reset_fold       "refresh work"
+     row_ok, rows_ok  one row / all rows against Ilu.ilu0_row / Ilu.ilu0_rows
+     count_ok         the counting pass *)
 From Coq Require Import ZArith Lia.
 From Amgcl Require Import Scalar Vec Crs Kernels MatOps MatOpsProofs Relax LowLevel LowLevelProofs LowLevelT LowLevelTProofs
                           LowLevel2 LowLevel2Proofs LowLevel2G LowLevel2GProofs Ilu LowLevel2I.
@@ -66,7 +78,7 @@ Proof.
   replace k with (length (firstn k Ls)) at 1 by (rewrite firstn_length; lia).
   apply flat_ptr_nth.
 Qed.
-Lemma concat_firstn_S {X} (Us : list (list X)) c : c < length Us ->
+Lemma concat_firstn_S1 {X} (Us : list (list X)) c : c < length Us ->
   concat (firstn (c + 1) Us) = concat (firstn c Us) ++ nth c Us [].
 Proof.
   intro H. rewrite Nat.add_1_r, (firstn_S_nth Us c []) by exact H. rewrite concat_app. cbn [concat]. rewrite app_nil_r. reflexivity.
@@ -333,7 +345,7 @@ Proof.
     rewrite rst_idd, (mrd_pre D _ (fst e) s0) by lia. cbn [mbind].
     pose proof (Hw (fun _ => (v * nth (fst e) D s0)%S)) as Hw1. cbv beta in Hw1. rewrite Hw1. cbn [mbind].
     rewrite rst_iup, (Hup (fst e)), (Hup (fst e + 1)) by lia. cbn [mbind].
-    rewrite concat_firstn_S by lia. rewrite app_length.
+    rewrite concat_firstn_S1 by lia. rewrite app_length.
     replace (length (concat (firstn (fst e) Us)) + length (nth (fst e) Us []) - length (concat (firstn (fst e) Us)))
       with (length (nth (fst e) Us [])) by lia.
     rewrite lincomb_loop.
@@ -987,3 +999,22 @@ Theorem ll_ilu0_ok {S : Scalar} (A : crs S) (junk : vec S) :
   has_diag A = true ->
   ilu0_agrees A junk (ll_ilu0 (flat_of A)).
 Proof. intros Hwf Hsq _ Hd. apply ll_ilu0_gen; [exact Hwf|rewrite Hsq; apply le_n|exact Hd]. Qed.
+
+(* has_diag cannot be dropped: a row without diagonal leaves D[i] unwritten (the list model returns
+   its junk input there), so  idd st = filled D  fails *)
+Lemma ll_ilu0_nodiag_uninit {S : Scalar} (junk : vec S) :
+  (exists st, ll_ilu0 (flat_of (mkCrs 1 [[]] : crs S)) = Done (EOk st) /\ idd st = [None]) /\
+  ilu0 (mkCrs 1 [[]] : crs S) junk = Ilu.Ok (mkCrs 1 [[]], mkCrs 1 [[]], [vget junk 0]).
+Proof. split; [eexists; split; reflexivity|reflexivity]. Qed.
+
+(* in particular: no error outcome, whatever the list model returns *)
+Theorem ll_ilu0_safe {S : Scalar} (A : crs S) :
+  wf A = true -> ncols A <= nrows A -> has_diag A = true ->
+  let r := ll_ilu0 (flat_of A) in
+  r <> OutOfBounds /\ r <> UninitRead /\ r <> OutOfFuel.
+Proof.
+  intros HA Hsq HD. cbv zeta. pose proof (ll_ilu0_gen A [] HA Hsq HD) as H. unfold ilu0_agrees in H.
+  destruct (ilu0 A []) as [[[L U] D]|e].
+  - destruct H as (st & Hr & _). rewrite Hr. repeat split; discriminate.
+  - rewrite H. repeat split; discriminate.
+Qed.
